@@ -216,44 +216,86 @@ def _final_value(stmts, name, env, cur=None):
 def checkmode(run, p):
     run.rule('C19-CHECKMODE', 'over (list-tagged mode, item is a nested suite): a test case instance is added to the suite that will run '
                               'exactly when list-tagged mode is off; in list mode its class is recorded instead; nested suites are recursed')
+    from ..pyeval import Interp, Model, Obj, Unsupported, Raised
     f = p.method('TaggedTestLoader', '_tagged_tests_only')
-    loop = [x for x in ast.walk(f.node) if isinstance(x, ast.For)]
-    if not loop:
-        raise AnalysisError('_tagged_tests_only has no loop')
-    body = loop[0].body
 
-    def effects_of(stmts, env):
-        added = recorded = False
-        for st in stmts:
-            if isinstance(st, ast.If):
-                try:
-                    arm = st.body if _truth(st.test, env) else st.orelse
-                except AnalysisError:
-                    if any(isinstance(c, ast.Call) and norm(c.func).endswith(('.addTest', 'cases.add')) for c in ast.walk(st)):
-                        raise
-                    continue
-                a, r = effects_of(arm, env)
-                added, recorded = added or a, recorded or r
-            else:
-                for c in ast.walk(st):
-                    if isinstance(c, ast.Call) and norm(c.func).endswith('.addTest'):
-                        added = True
-                    if isinstance(c, ast.Call) and norm(c.func).endswith('cases.add'):
-                        recorded = True
-        return added, recorded
-    d = loop[0]
-    kinds = (('a suite', True, ()), ('a ReferenceTestCase', False, ('TestCase', 'ReferenceTestCase', 'object')),
-             ('a plain unittest.TestCase', False, ('TestCase', 'object')))
-    for chk, (what, suite, classes) in itertools.product((False, True), kinds):
-        env = {'self.check': chk, 'is_suite': suite, 'item_classes': classes}
-        added, recorded = effects_of(body, env)
+    class Suite(Model):
+        def __init__(self, tests=()):
+            self.tests = list(tests)
+
+        def addTest(self, t):
+            self.tests.append(t)
+
+        def addTests(self, ts):
+            self.tests.extend(ts)
+
+        def __iter__(self):
+            return iter(list(self.tests))
+
+    class _NS(Model):
+        pass
+    ut = _NS()
+    ut.TestSuite = Suite
+    ut.suite = _NS()
+    ut.suite.TestSuite = Suite
+    ut.TestCase = type('TestCase', (Model,), {})
+    ut.case = _NS()
+    ut.case.TestCase = ut.TestCase
+
+    class PlainCase(ut.TestCase):
+        pass
+    PlainCase.__module__ = 'tests.plain'
+
+    def leaves(s):
+        out = []
+        for t in s.tests:
+            out += leaves(t) if isinstance(t, Suite) else [t]
+        return out
+
+    def run_loader(chk, suite):
+        printed = []
+
+        def printer(*a):
+            printed.append(' '.join(str(x) for x in a))
+        printer._pyeval_model = True
+        loader = Obj(p.cls('TaggedTestLoader'))
+        loader.attrs['check'] = chk
+        loader.attrs['print'] = printer
+        I = Interp(p)
+        I.extra_names['unittest'] = ut
+        try:
+            out = I.call(f, [suite], selfobj=loader)
+        except (Unsupported, Raised) as e:
+            raise AnalysisError('_tagged_tests_only is not evaluable: %s' % e)
+        if not isinstance(out, Suite):
+            raise AnalysisError('_tagged_tests_only did not return a suite')
+        return out, printed
+    refcase = Obj(p.cls('ReferenceTestCase'))
+    plain = PlainCase()
+    kinds = (('a suite', Suite([])), ('a ReferenceTestCase', refcase), ('a plain unittest.TestCase', plain))
+    for chk, (what, item) in itertools.product((False, True), kinds):
+        out, printed = run_loader(chk, Suite([item]))
+        suite = isinstance(item, Suite)
+        added = len(out.tests) == 1 and (isinstance(out.tests[0], Suite) if suite else out.tests[0] is item)
+        recorded = bool(printed)
         want_added = suite or not chk
-        ok = added == want_added and (recorded == (chk and not suite))
+        ok = added == want_added and (recorded == (chk and not suite)) and (added or not out.tests)
+        if ok and recorded:
+            cname = 'ReferenceTestCase' if item is refcase else 'PlainCase'
+            ok = len(printed) == 1 and printed[0].endswith('.' + cname)
         run.ob('C19-CHECKMODE', 'check=%s,item=%s' % (chk, what), ok,
-               'list mode %s, item is %s: added to the run=%s, class recorded=%s' % (chk, what, added, recorded), fn=f, node=d)
-    rec = any(isinstance(s, ast.If) and 'TestSuite' in norm(s.test) and any(isinstance(c, ast.Call) and norm(c.func) == 'self._tagged_tests_only' for c in ast.walk(s))
-              for s in body)
-    run.ob('C19-CHECKMODE', 'recursion', rec, 'nested suites are filtered recursively', fn=f, nontrivial=False)
+               'list mode %s, item is %s: added to the run=%s, classes listed=%s' % (chk, what, added, printed), fn=f)
+    rec = True
+    detail = []
+    for chk in (False, True):
+        out, printed = run_loader(chk, Suite([Suite([refcase, Suite([plain])])]))
+        got = leaves(out)
+        detail.append('list mode %s: %d cases left to run, %d classes listed' % (chk, len(got), len(printed)))
+        if chk:
+            rec = rec and not got and len(printed) == 2
+        else:
+            rec = rec and len(got) == 2 and got[0] is refcase and got[1] is plain and not printed
+    run.ob('C19-CHECKMODE', 'recursion', rec, 'nested suites are filtered recursively (%s)' % '; '.join(detail), fn=f, nontrivial=False)
     rt = p.fn('tdda.referencetest.referencetestcase._run_tests')
     # which loader runs the tests, as a function of (tagged, check): the filtering loader, told whether to list, exactly
     # when either was requested
